@@ -204,7 +204,7 @@ class ProgGen:
     # ---- whole program ----
     def build(self):
         r = self.r
-        self.w("import functools")
+        self.w("import abc, functools")
         self.w("from vrec import R, Susp, drive, Boom")
         self.w("V = []")
         self.w("")
@@ -301,9 +301,25 @@ class ProgGen:
             self.w("LocalModel = [build_model()]")
             self.plain += [("Shape.Registry.register", cn), ("Shape.Registry().register", cn), ("LocalModel[0].create", cb)]
             self.w("")
+        if not self.safe_generators and r.random() < 0.3:
+            # a lambda bound to a local of a frame that is still on the stack: resolvable through that frame's locals
+            self.w("def uses_lambda(a):")
+            self.w("    R.enter(['a'])")
+            # two lambdas on ONE line: same name, same first line, same file - two code objects
+            self.w("    key, key2 = (lambda p: (R.enter(['p']), R.act('return', p), p)[2]), (lambda p, q=None: (R.enter(['p', 'q']), R.act('return', (p, q)), (p, q))[2])")
+            self.w("    R.reg(key)")
+            self.w("    R.reg(key2)")
+            self.w(f"    _w = key2(a, {self.v()})")
+            self.w("    _v = key(a)")
+            self.w("    R.act('return', _v)")
+            self.w("    return _v")
+            self.w("R.reg(uses_lambda)")
+            self.plain.append(("uses_lambda", ["{0}"]))
+            self.w("")
         # classes
         if r.random() < 0.8:
-            self.w("class Base:")
+            # sometimes with a metaclass other than `type` (abc.ABC-style): still a class to every lookup
+            self.w("class Base(metaclass=abc.ABCMeta):" if r.random() < 0.4 else "class Base:")
             c1 = self.def_plain("m", ind=4, receiver="self")
             self.w("    R.reg(m)")
             c2 = self.def_plain("cm", ind=4, receiver="cls", deco="@classmethod")
